@@ -1,6 +1,16 @@
 package main
 
 func init() {
+	props["C07"] = &PropSpec{
+		Rules:      []string{"switch/shift-siblings"},
+		Decides:    "that every shift implementation (the four helpers shared by Int8..UInt64/UInt and the Int shifts) accepts the same set of operand representations, so no shift rejects with a TypeError an AnyInt operand its siblings accept.",
+		NotCovered: "the modular and IEEE-754 results themselves (delegated to Go's sized arithmetic; they depend on operand values), overflow at conversion boundaries.",
+	}
+	props["C08"] = &PropSpec{
+		Rules:      []string{"ops/typedguard"},
+		Decides:    "that each specialised opcode the compiler chooses from static types (under IsSubtype(_, Std::Int / Std::Float)) is executed by a handler that reads the operand with the accessors of exactly those representations; otherwise the specialised path reinterprets the operand's bits and disagrees with the generic path.",
+		NotCovered: "equality of results where generic and specialised paths legitimately call different functions; constant folding versus run-time evaluation; statically bound versus dynamically resolved calls.",
+	}
 	props["C29"] = &PropSpec{
 		Rules:      []string{"optable/handled", "optable/width"},
 		Decides:    "that the three places which must agree on the instruction encoding do agree, for every opcode: the VM run loop, the disassembler and every emission site of the compiler (existence of a handler, and the number of operand bytes).",
